@@ -493,6 +493,10 @@ structure DecompressorOk (D : Decompressor) (IsStream : Bytes → Bytes → Prop
   or the offered input used up -/
   greedy_init : ∀ {z d inp cap r}, IsStream z d → inp <+: z → D.decompress D.init inp cap false = some r →
     r.status ≠ .streamEnd → r.produced.length = cap ∨ r.consumed = inp.length
+  /-- with the whole rest of the stream on offer and room for the whole rest of the content, a call
+  ends the stream or makes progress (used by the loop of `loose::Store::find_inner`) -/
+  finish_progress : ∀ {s z d i o cap r}, Inv s z d i o → d.length - o ≤ cap →
+    D.decompress s (z.drop i) cap false = some r → r.status ≠ .streamEnd → 0 < r.consumed ∨ r.produced ≠ []
   /-- `BufError` (without `Finish`) means nothing happened -/
   buf_error : ∀ {s inp cap r}, D.decompress s inp cap false = some r → r.status = .bufError →
     r.consumed = 0 ∧ r.produced = []
